@@ -2,6 +2,7 @@ import KoordVerif.Common.Proto
 import KoordVerif.Model.C06
 import KoordVerif.Model.C06Pick
 import KoordVerif.Model.C06Alloc
+import KoordVerif.Model.C06Events
 /-
 Driver for C06.  Op lines (integer tokens):
 
@@ -30,6 +31,16 @@ Driver for C06.  Op lines (integer tokens):
   commitq                                                 (as commit, no output: the ledger cannot be read while other
                                                            goroutines run)
   dump                                                    -> ledger dump
+  etopo <node> <present> <ncpus>                          -> events dump   (NodeResourceTopology event: the stored CPU topology of
+                                                           the cluster node is valid iff present and ncpus > 0)
+  epod <0 add|2 delete|3 tombstone> <snap>                -> events dump   (podEventHandler.OnAdd / OnDelete)
+  epod 1 <snap old> <snap new>                            -> events dump   (OnUpdate)
+  epod 4                                                  -> events dump   (objects of another type: no effect)
+        snap = <uid> <node|0> <terminal> <status 0|1|2> <spec 0|1|2> <cpuset 0|1> <excl> <nc> cpu… <nn> (cell amt)…
+        events dump = for cluster nodes 1 and 2: `n<k> pods u…` / `n<k> cpus (c ref excl)…` / `n<k> res (cell amt)…`
+  fresh                                                   (a node name without ledger entry: the ledger is empty; no output)
+  updq <uid> <excl> <nc> cpu… <nn> (cell amt)…            (as upd, no output: the ledger cannot be read while goroutines run)
+  esel <node>                                             (continue with the ledger of that cluster node: alloc / commit / dump)
 ledger dump = `pods u…` / `cpus (c ref excl)…` / `res (cell amt)…` (non-zero) / `avail c…`,
 every list sorted by key.  All amounts in milli-units.
 -/
@@ -72,6 +83,7 @@ structure Ctx where
   cfg      : NodeCfg := { topo := [], cpc := 1, cpn := 1, cps := 1, maxRef := 1, most := true, reserved := [],
                           caps := [], num := 0, den := 1 }
   last     : Option PodAlloc := none
+  M        : Mgr := Mgr.empty
 
 def dump (c : Ctx) : List String :=
   let pods := sortNat (c.L.pods.map (·.uid))
@@ -198,6 +210,38 @@ def runAlloc (c : Ctx) : List Int → Ctx × List String
     | none => (c, ["bad-op"])
   | _ => (c, ["bad-op"])
 
+def parseSnap : List Int → Option (PodObj × List Int)
+  | uid :: node :: term :: st :: sp :: cs :: excl :: rest => do
+    let (cpus, rest) ← takeBlock 1 rest
+    let (ns, rest) ← takeBlock 2 rest
+    if uid < 0 || node < 0 || st < 0 || sp < 0 || cs < 0 || excl < 0 || cpus.any (· < 0) then none else
+    some ({ uid := uid.toNat, node := node.toNat, term := term ≠ 0, st := st.toNat, sp := sp.toNat, cs := cs.toNat,
+            excl := excl.toNat, cpus := cpus.map Int.toNat, numa := pairs ns }, rest)
+  | _ => none
+
+def parseEvent : List Int → Option Event
+  | [4] => some .other
+  | kind :: rest => do
+    let (a, rest) ← parseSnap rest
+    if kind = 0 then (if rest = [] then some (.podAdd a) else none)
+    else if kind = 2 || kind = 3 then (if rest = [] then some (.podDelete a) else none)
+    else if kind = 1 then do
+      let (b, rest) ← parseSnap rest
+      if rest = [] then some (.podUpdate a b) else none
+    else none
+  | _ => none
+
+def dumpNode (M : Mgr) (n : Nat) : List String :=
+  let L := M.L n
+  let pods := sortNat (L.pods.map (·.uid))
+  let cpus := sortKey L.cpus
+  let res := sortKey (L.res.filter (fun e => e.2 != 0))
+  [ s!"n{n} pods " ++ showNats pods,
+    s!"n{n} cpus " ++ " ".intercalate (cpus.map fun (k, r) => s!"{k} {r.ref} {r.excl}"),
+    s!"n{n} res " ++ " ".intercalate (res.map fun (k, v) => s!"{k} {v}") ]
+
+def dumpEvents (M : Mgr) : List String := dumpNode M 1 ++ dumpNode M 2
+
 def runLine (c : Ctx) (line : String) : Ctx × List String :=
   match toks line with
   | kind :: rest =>
@@ -224,6 +268,29 @@ def runLine (c : Ctx) (line : String) : Ctx × List String :=
       | "dump" =>
         match xs with
         | [] => (c, dump c)
+        | _ => (c, ["bad-op"])
+      | "fresh" =>
+        match xs with
+        | [] => ({ c with L := Ledger.empty, last := none }, [])
+        | _ => (c, ["bad-op"])
+      | "updq" =>
+        match parsePod xs with
+        | some p => ({ c with L := step c.L (.upd p) }, [])
+        | none => (c, ["bad-op"])
+      | "etopo" =>
+        match xs with
+        | [n, present, ncpus] =>
+          if n < 0 || ncpus < 0 then (c, ["bad-op"]) else
+          let c' := { c with M := handle c.M (.topo n.toNat (topoValid (present ≠ 0) ncpus.toNat)) }
+          (c', dumpEvents c'.M)
+        | _ => (c, ["bad-op"])
+      | "epod" =>
+        match parseEvent xs with
+        | some e => let c' := { c with M := handle c.M e }; (c', dumpEvents c'.M)
+        | none => (c, ["bad-op"])
+      | "esel" =>
+        match xs with
+        | [n] => if n < 0 then (c, ["bad-op"]) else ({ c with L := c.M.L n.toNat, last := none }, [])
         | _ => (c, ["bad-op"])
       | "navailx" =>
         match xs with
